@@ -257,6 +257,9 @@ Section AtomsP.
   Lemma PA_factors_of old r : PA r = true -> forallb PA (factors_of old r) = true.
   Proof. intros H. unfold factors_of. destruct old; [cbn [forallb]; rewrite H; reflexivity|]. apply PA_factors. exact H. Qed.
 
+  Lemma PA_post_quotient q : PA q = true -> PA (post_quotient q) = true.
+  Proof. intros H. destruct q; try exact H. cbn [post_quotient]. destruct (expr_eqb q1 q2); [reflexivity|exact H]. Qed.
+
   Theorem PA_cz old o : forall e, PA e = true -> PA (fst (cz old o e)) = true /\ forallb PA (snd (cz old o e)) = true.
   Proof.
     induction e as [pop ch pa|es IH|e rs IH|n d IHn IHd| | |dm cd|k] using expr_ind'; intros He.
@@ -277,9 +280,9 @@ Section AtomsP.
     - destruct (PA_frac_parts _ _ He) as [Hn Hd]. destruct (IHn Hn) as [Hn' _]. destruct (IHd Hd) as [Hd' _]. cbn [cz fst snd].
       set (n' := fst (cz old o n)) in *. set (d' := fst (cz old o d)) in *.
       assert (Hr : PA (if is_err n' then n' else if is_err d' then d' else if is_one d' then n' else if expr_eqb n' d' then EOne
-                       else if old then truediv_old n' d' else truediv n' d') = true).
+                       else if old then truediv_old n' d' else post_quotient (truediv n' d')) = true).
       { destruct (is_err n'); [exact Hn'|]. destruct (is_err d'); [exact Hd'|]. destruct (is_one d'); [exact Hn'|].
-        destruct (expr_eqb n' d'); [reflexivity|]. destruct old; [|apply PA_truediv; assumption].
+        destruct (expr_eqb n' d'); [reflexivity|]. destruct old; [|apply PA_post_quotient; apply PA_truediv; assumption].
         (* the pre-repair division: same constructors *)
         unfold truediv_old. destruct n', d'; try exact Hn'; try exact Hd'; try reflexivity; try (apply PA_mk_frac; assumption);
           try (destruct (PA_frac_parts _ _ Hn') as [A1 A2]); try (destruct (PA_frac_parts _ _ Hd') as [B1 B2]);
